@@ -34,8 +34,12 @@ def histories(ctx):
         dict(solver="pvi", f=2, m=2, asy=True, k1=5, k2=None),
         dict(solver="vi", f=2, m=2, asy=True, k1=5, k2=3),
     ]
+    H.append(dict(solver="vi", f=2, m=2, asy=True, k1=5, k2=None, crc="tmp-present", k2c=3))
     if not q:
         H = []
+        for crc in ("tmp-present", "just-committed", "deletion-half-done"):
+            for solver, asy in (("vi", True), ("pvi", True), ("rvi", False)):
+                H.append(dict(solver=solver, f=2, m=2, asy=asy, k1=5, k2=None, crc=crc, k2c=3))
         for solver, (f, m), asy in itertools.product(("vi", "rvi", "pvi"), ((1, 1), (2, 2), (1, 2), (2, 1)), (False, True)):
             H.append(dict(solver=solver, f=f, m=m, asy=asy, k1=4 if f == 1 else 5, k2=3 if (f + m + asy) % 2 == 0 else None))
     return H
@@ -74,6 +78,40 @@ def record_history(args):
         if real != rep_tree:
             diff = sorted(k for k in set(real) | set(rep_tree) if real.get(k) != rep_tree.get(k))[:5]
             return {"error": "conformance: replaying the recorded log does not reproduce the real tree (differs at %s)" % diff}
+    if h.get("crc"):
+        # crash-restore-crash: rebuild the crash state of the first epoch at a new root, record a resume
+        # epoch that starts from that debris, and enumerate every prefix of the second epoch on top of it
+        ops1 = [o for o in ops if o[1] != "mark"]
+        pts = RL.crash_points(ops1, ROOT)
+        if h["crc"] not in pts:
+            return {"error": None, "skipped": "crash point %s does not occur in this recording" % h["crc"]}
+        k = pts[h["crc"]]
+        ROOT2 = os.path.join(base, "R%05d" % (hid + 5))
+        shutil.rmtree(ROOT, ignore_errors=True)
+        shutil.rmtree(ROOT2, ignore_errors=True)
+        RL.apply(ops1[:k], ROOT, ROOT2)
+        log = os.path.join(base, "h%05d_crc.log" % hid)
+        rc, err = RL.record(json.dumps(dict(spec, dir=ROOT2, epoch="resume", k=h["k2c"])), log, ROOTDIR)
+        if rc != 0:
+            shutil.rmtree(ROOT2, ignore_errors=True)
+            return {"error": "resume epoch from the crash state '%s' (after operation %d) failed rc=%s: %s" % (h["crc"], k, rc, err[-300:])}
+        ops2 = RL.parse(log, ROOT2)
+        os.remove(log)
+        ops = RL.rebase(ops1[:k], ROOT, ROOT2) + ops2
+        real = RL.tree(ROOT2)
+        dst = os.path.join(base, "C%05d" % hid)
+        shutil.rmtree(dst, ignore_errors=True)
+        RL.apply([o for o in ops if o[1] != "mark"], ROOT2, dst)
+        rep_tree = RL.tree(dst, sub=(dst.encode(), ROOT2.encode()))
+        shutil.rmtree(dst, ignore_errors=True)
+        shutil.rmtree(ROOT2, ignore_errors=True)
+        if real != rep_tree:
+            return {"error": "conformance: replay of crash-restore-crash recording does not reproduce the real tree"}
+        conf.append(True)
+        ROOT = ROOT2
+        first_k = k
+    else:
+        first_k = 0
     shutil.rmtree(ROOT, ignore_errors=True)
     marks = [(i, o[2]) for i, o in enumerate(ops) if o[1] == "mark"]
     real_ops = [o for o in ops if o[1] != "mark"]
@@ -81,7 +119,7 @@ def record_history(args):
     path = os.path.join(base, "h%05d_r%d.pkl" % (hid, rep))
     with open(path, "wb") as f:
         pickle.dump({"ops": real_ops, "ROOT": ROOT, "spec": spec}, f)
-    return {"error": None, "path": path, "n": len(real_ops), "appends": [i for i, o in enumerate(real_ops) if o[1] == "append" and len(o[3]) >= 2],
+    return {"error": None, "path": path, "n": len(real_ops), "first_k": first_k, "appends": [i for i, o in enumerate(real_ops) if o[1] == "append" and len(o[3]) >= 2],
             "invariant": inv, "threads": len({o[0] for o in real_ops}), "conformance": conf, "kinds": _kinds(real_ops)}
 
 
@@ -205,7 +243,7 @@ def run(ctx):
     pool.shutdown()
     jobs, meta = [], []
     for (h, hid, _, rep), r in zip(args, recs):
-        label = "%s f=%d m=%d %s k1=%d%s rec=%d" % (h["solver"], h["f"], h["m"], "async" if h["asy"] else "sync", h["k1"], (" restore k2=%d" % h["k2"]) if h["k2"] else "", rep)
+        label = "%s f=%d m=%d %s k1=%d%s%s rec=%d" % (h["solver"], h["f"], h["m"], "async" if h["asy"] else "sync", h["k1"], (" restore k2=%d" % h["k2"]) if h["k2"] else "", (" crash@%s restore k=%d" % (h["crc"], h["k2c"])) if h.get("crc") else "", rep)
         if r["error"]:
             if r["error"].startswith("conformance") or r["error"].startswith("write-history") or r["error"].startswith("full replay"):
                 raise RuntimeError("machinery: %s: %s" % (label, r["error"]))
@@ -214,9 +252,13 @@ def run(ctx):
         if r["invariant"]:
             ctx.violation("history %s structural-invariant" % label, r["invariant"], h)
         ctx.bump("conformance_full_replays_byte_identical", len(r["conformance"]))
-        prefixes = [(k, None) for k in range(r["n"] + 1)]
+        if r.get("skipped"):
+            ctx.outcome("crc-skipped:" + r["skipped"][:40])
+            continue
+        prefixes = [(k, None) for k in range(r.get("first_k", 0), r["n"] + 1)]
         for i in r["appends"]:
-            prefixes += [(i + 1, "half"), (i + 1, "allbut1")]
+            if i + 1 > r.get("first_k", 0):
+                prefixes += [(i + 1, "half"), (i + 1, "allbut1")]
         for i in range(0, len(prefixes), 8):
             jobs.append({"path": r["path"], "prefixes": prefixes[i:i + 8]})
             meta.append(label)
